@@ -124,6 +124,49 @@ def run(ctx):
             okk = any(o[0] not in ('param', 'const', 'place') and o[1].get('k') == 'call' and o[1] is vc[0][1] for o in rec)
     C.check(okk, 'C14-SIB-key', 'indices-then-elements', 'the sort comparator no longer orders by specification position first and by element comparison only on ties',
             sample={'comparator': 'elem_indices_a.cmp(elem_indices_b).then(elem_a.cmp(elem_b))'})
+    # children are sorted BEFORE the siblings are compared (the comparison falls back to content): every Element::sort call
+    # of the sorting branch precedes the sort_by call
+    sb = calls(sr, r'<impl \[T\]>::sort_by$|sort_by$|sort_unstable_by$|sort_by_key$')
+    rs0 = calls(sr, r'impl Element>::sort$')
+    if len(sb) != 1:
+        C.anchor_missing('C14-SIB-key', 'sort_by call in ElementRaw::sort')
+    else:
+        late = [p for p in rs0 if p in sr.reach_from(sb[0])]
+        early = [p for p in rs0 if sb[0] in sr.reach_from(p)]
+        C.check(not late and bool(early), 'C14-SIB-key', 'children-sorted-before-siblings-are-compared',
+                'child elements are sorted after (or not before) their parents are compared; sibling comparison falls back to content, so the result depends on the previous order and a second sort changes it', sr.where(sb[0]),
+                sample={'fn': 'ElementRaw::sort', 'order': 'elem.sort() for every child, then sort_by'})
+    # Element::cmp: no sub-comparison result is returned untested (falling through on Equal), except the final tie-breaker chain
+    ec = P.get('<Element as Ord>::cmp')
+    untested = []
+    n_cmp = 0
+    for pos, t in ec.iter_calls():
+        if not call_matches(t, r'Ord>::cmp$|::cmp$') or call_matches(t, r'Ordering::then'):
+            continue
+        n_cmp += 1
+        d = t['dst']
+        if d['l'] == 0 and not d['p']:
+            untested.append(pos)
+            continue
+        from flow import forward_taint
+        tl = forward_taint(ec, {d['l']}, through_refs=True)
+        tested = False
+        feeds_then = False
+        direct_ret = False
+        for p2, role, pl, st in __import__('flow').iter_uses(ec):
+            if not (is_local_op(pl) and pl['l'] in tl):
+                continue
+            if role == 'switch' or role == 'discr' or (role.startswith('arg') and st.get('k') == 'call' and call_matches(st, r'PartialEq.*::(ne|eq)$')):
+                tested = True
+            if role.startswith('arg') and st.get('k') == 'call' and call_matches(st, r'Ordering::then'):
+                feeds_then = True
+            if role.startswith('use') and st.get('k') == 'assign' and st['dst']['l'] == 0 and not st['dst']['p']:
+                direct_ret = True
+        if direct_ret and not tested and not feeds_then:
+            untested.append(pos)
+    C.check(not untested and n_cmp >= 6, 'C14-SIB-key', 'Element::cmp|no-untested-early-return',
+            'Element::cmp returns the result of a sub-comparison without testing it for Equal (%d sites): elements that tie on that key are never compared further, so their order depends on the previous order' % len(untested),
+            ec.where(untested[0]) if untested else '', sample={'fn': '<Element as Ord>::cmp', 'sub_comparisons': n_cmp, 'untested_returns': len(untested)})
     # recursion into children happens on both branches
     rs = calls(sr, r'impl Element>::sort$')
     C.check(len(rs) == 2, 'C14-FLOW-refill', 'descends-into-children-on-both-branches', 'sort no longer descends into the child elements on both the sorting and the non-sorting branch (%d calls)' % len(rs))
